@@ -107,6 +107,7 @@ func (c *Client) guard(r *Res, f func()) {
 			r.Panic = fmt.Sprint(p)
 			r.OK = false
 			r.Code = "PANIC"
+			c.S.Panicked = true
 			c.S.Violate("C14.panic", "handler", "handler panicked: %v\n%s", p, PanicFrames())
 		}
 		r.Ret = c.S.Now()
